@@ -76,7 +76,7 @@ Definition ex_ops : list op :=
 Example C09_ex_run :
   match run_ghost 1 2 st0 gempty ex_ops with
   | Ok (s, M) => (find s 5, M 5, find s 1152921504606846981, find s 18446744073709551615, find s 6, length (nodes s))
-                 = (Ok (Some (0%nat, 5)), Some (0%nat, 5), Ok (Some (1%nat, 5)), Ok (Some (3%nat, 15)), Ok None, 7%nat)
+                 = (Ok (Some (0%nat, 5)), Some (0%nat, 5), Ok (Some (1%nat, 5)), Ok (Some (3%nat, 15)), Ok None, 6%nat)
   | _ => False
   end.
 Proof. vm_compute. reflexivity. Qed.
